@@ -4,13 +4,13 @@
 EXTENDS EnumSpec, Json, FP
 CONSTANT ObsFile
 Obs == ndJsonDeserialize(ObsFile)
-P(r) == [src |-> r.src, tgt |-> r.tgt, map |-> r.map, unknown |-> r.unknown, rootErr |-> r.rootErr, pos |-> r.pos, enumOn |-> r.enumOn]
+P(r) == [tr |-> r.tr, same |-> r.same, src |-> r.src, tgt |-> r.tgt, map |-> r.map, unknown |-> r.unknown, rootErr |-> r.rootErr, pos |-> r.pos, enumOn |-> r.enumOn]
 Cause(p) == IF ~p.enumOn THEN "enum-off" ELSE LET g == Gen(p) IN IF g.fail = "" THEN "model-accepts" ELSE g.fail
 \* C18: fmt is imported exactly when an @error / @panic action is emitted
 Rng(q) == {q[i] : i \in DOMAIN q}
 UsesFmt(p) == p.enumOn /\ (p.unknown \in {"@error", "@panic"} \/ (p.map # <<>> /\ Has(p.src, p.map[1]) /\ p.map[2] \in {"@error", "@panic"}))
 \* (with enum off the source enum of a *field* is only read, never named: its package is not an owner of a used type)
-ExpImports(p) == {"tgt-enum"} \cup (IF p.pos # "field" \/ p.enumOn THEN {"src-enum"} ELSE {}) \cup (IF p.pos = "field" THEN {"user"} ELSE {}) \cup (IF UsesFmt(p) THEN {"fmt"} ELSE {})
+ExpImports(p) == (IF p.same THEN {"src-enum"} ELSE {"tgt-enum"} \cup (IF p.pos # "field" \/ p.enumOn THEN {"src-enum"} ELSE {})) \cup (IF p.pos = "field" THEN {"user"} ELSE {}) \cup (IF UsesFmt(p) THEN {"fmt"} ELSE {})
 Finger18(r) ==
   LET p == P(r) IN
   IF r.exec \/ r.gen # "ok" THEN {}
@@ -18,7 +18,8 @@ Finger18(r) ==
        \cup (IF \E i \in DOMAIN r.decls : r.decls[i] \notin {"struct", "method"} THEN {<<"C18", "extra-top-level-declaration", "", r.id>>} ELSE {})
 Finger1(r) ==
   LET p == P(r) IN
-  IF ~r.exec THEN
+  IF ~r.exec /\ r.gen = "ok" /\ ~r.orderOK THEN {<<"C12", "output-depends-on-converter-order", "enum", r.id>>, <<"C08", "output-depends-on-converter-order", "", r.id>>}
+  ELSE IF ~r.exec THEN
      (IF r.gen = "panic" THEN {<<"C13", "generator-panic", r.why, r.id>>}
       ELSE IF (r.gen = "ok") # EnumGenOK(p)
       THEN {<<"C08", IF EnumGenOK(p) THEN "valid-enum-mapping-rejected" ELSE "invalid-enum-mapping-accepted", Cause(p), r.id>>} ELSE {})
